@@ -238,22 +238,28 @@ func checkC19(w *World, r *Report) {
 				if !ok || al.Referrers() == nil {
 					return v, false
 				}
-				for _, ref := range *al.Referrers() {
-					switch x := ref.(type) {
-					case *ssa.FieldAddr:
-						if x.Field != 0 || x.Referrers() == nil {
-							continue
-						}
-						for _, r2 := range *x.Referrers() {
-							if st, ok := r2.(*ssa.Store); ok && st.Addr == ssa.Value(x) {
-								return firstField(Val{st.Val, v.F, v.E}, d+1)
-							}
-						}
-					case *ssa.Store:
-						if x.Addr == ssa.Value(al) {
-							return firstField(Val{x.Val, v.F, v.E}, d+1)
+				// the value stored at the first field, through nested literals (chained field addresses)
+				var storedAt func(addr ssa.Value, dd int) ssa.Value
+				storedAt = func(addr ssa.Value, dd int) ssa.Value {
+					if dd > 4 || addr.Referrers() == nil {
+						return nil
+					}
+					for _, ref := range *addr.Referrers() {
+						if st, ok := ref.(*ssa.Store); ok && st.Addr == addr {
+							return st.Val
 						}
 					}
+					for _, ref := range *addr.Referrers() {
+						if fa, ok := ref.(*ssa.FieldAddr); ok && fa.Field == 0 {
+							if sv := storedAt(fa, dd+1); sv != nil {
+								return sv
+							}
+						}
+					}
+					return nil
+				}
+				if sv := storedAt(al, 0); sv != nil {
+					return firstField(Val{sv, v.F, v.E}, d+1)
 				}
 				return v, false
 			}
